@@ -41,6 +41,16 @@ def point_ok(facts, X, need_noninf):
     return ok
 
 
+def _transformed_input(arg):
+    """the decoded byte string is built from a caller's value by slicing / concatenation / conversion instead of being that value"""
+    from ..term import subterms
+    if not isinstance(arg, Term):
+        return False
+    if arg.op in ("var", "elem", "G1_to_pubkey", "G2_to_signature"):
+        return False
+    return any(isinstance(t, Term) and t.op in ("var", "elem") and t.sort in ("bytes", "any", "seq") for t in subterms(arg))
+
+
 MYPY_FLAGS = ["--check-untyped-defs", "--disallow-any-generics", "--disallow-incomplete-defs", "--disallow-subclassing-any",
               "--disallow-untyped-calls", "--disallow-untyped-decorators", "--disallow-untyped-defs", "--ignore-missing-imports",
               "--strict-equality", "--strict-optional", "--warn-redundant-casts", "--warn-return-any", "--warn-unused-configs",
@@ -130,6 +140,7 @@ def run(chk, repo, tier):
         # ---------------- R2 / R3b
         sink_bad = {}
         dec_bad = {}
+        copy_bad = {}
         nsinks = 0
         ndec = 0
         accept_bad = {}
@@ -144,6 +155,8 @@ def run(chk, repo, tier):
                     n = DEC_LEN[ev["fn"]]
                     if not len_gate(ev["facts"], ev["arg"], n):
                         dec_bad.setdefault((ev["fn"], ev["caller"]), (ev, p))
+                    if _transformed_input(ev["arg"]):
+                        copy_bad.setdefault((ev["fn"], ev["caller"]), (ev, p))
                 elif ev["kind"] == "pairing":
                     nsinks += 1
                     Q, P, f = ev["Q"], ev["P"], ev["facts"]
@@ -182,6 +195,10 @@ def run(chk, repo, tier):
                 chk.ob("C04.R2", construct, "accepting exits", True, f"{naccept} accepting paths carry all gates", m.where)
             for k, p in accept_bad.items():
                 chk.ob("C04.R2", construct, k, False, f"path {' '.join(p.branch_lines()[-10:])}", m.where)
+        for (fn, caller), (ev, p) in copy_bad.items():
+            chk.ob("C04.R3", construct, f"{fn} decodes a transformed copy of the caller's bytes", False,
+                   f"{fn}({show(ev['arg'])[:100]}) at {ev['where']}: the value that is length-gated and decoded is a slice / re-assembly of "
+                   "the argument, so byte strings other than the canonical encoding (longer, padded) are accepted", ev["where"])
         if not dec_bad:
             chk.ob("C04.R3", construct, "decoder calls length-gated", True, f"{ndec} decoder call evaluations", m.where)
         for (fn, caller), (ev, p) in dec_bad.items():
